@@ -179,6 +179,21 @@ func VerifC04Texts() {
 	v.Assert("C04.no-panic", !panicked)
 	v.Assert("C04.error-returned", panicked || err != nil)
 	v.Assert("C04.no-report", report == "")
+	if v.Deep() {
+		// thorough tier: the same text again, through any entry point, and then a second unreadable text
+		ep2 := v.Choice("entryAgain", 4)
+		if ep2 >= 2 && compiled == nil {
+			var cerr error
+			compiled, cerr = ProcessProfile(verifProfile, false, nil)
+			v.Assume(cerr == nil)
+		}
+		for _, text := range []string{verifUnreadableTexts[k], verifUnreadableTexts[(k+7)%len(verifUnreadableTexts)]} {
+			report2, err2, panicked2 := verifCall(ep2, compiled, text)
+			v.Assert("C04.no-panic", !panicked2)
+			v.Assert("C04.error-returned", panicked2 || err2 != nil)
+			v.Assert("C04.no-report", report2 == "")
+		}
+	}
 }
 
 func VerifC04TextsNative() {
@@ -191,10 +206,30 @@ func VerifC04TextsNative() {
 			panic(cerr)
 		}
 	}
-	report, err, panicked := verifCall(ep, compiled, verifUnreadableTexts[v.ReplayInt("text")])
+	k := v.ReplayInt("text")
+	report, err, panicked := verifCall(ep, compiled, verifUnreadableTexts[k])
 	v.Assert("C04.no-panic", !panicked)
 	v.Assert("C04.error-returned", panicked || err != nil)
 	v.Assert("C04.no-report", report == "")
+	if v.Deep() {
+		ep2 := 0
+		if _, asked := v.ReplayInput("entryAgain"); asked {
+			ep2 = v.ReplayInt("entryAgain")
+		}
+		if ep2 >= 2 && compiled == nil {
+			var cerr error
+			compiled, cerr = ProcessProfile(verifProfile, false, nil)
+			if cerr != nil {
+				panic(cerr)
+			}
+		}
+		for _, text := range []string{verifUnreadableTexts[k], verifUnreadableTexts[(k+7)%len(verifUnreadableTexts)]} {
+			report2, err2, panicked2 := verifCall(ep2, compiled, text)
+			v.Assert("C04.no-panic", !panicked2)
+			v.Assert("C04.error-returned", panicked2 || err2 != nil)
+			v.Assert("C04.no-report", report2 == "")
+		}
+	}
 }
 
 // VerifC09Equiv: validating with the profile text equals compiling first and
